@@ -198,6 +198,9 @@ def run(tier, seed, replay=None):
             r = rng.fork()
             opts = {'big': i % 7 == 0, 'nfun': 4 + i % 3, 'depth': 2 + i % 3}
             progs.append(gen_builtin_program(r) if i % 12 == 4 else gen_order_program(r) if i % 12 == 7 else gen_infer_program(r) if i % 12 == 10 else gen_layout_program(r) if i % 3 == 2 else gen_program(r, opts))
+    if not replay:
+        from gen.progs import oob_programs
+        progs = progs + oob_programs()      # Vec accesses that leave the bounds at chosen places (always run)
     ck.rule = ('generated well-typed programs (recursive/generic enums, structs, interfaces with bounded generics, closures, tuples, '
                'nested and or-patterns, tail/non-tail recursion, Str/Vec/Process builtins) with inputs fed through Str.toInt; '
                'distinct = distinct program text; non-trivial = accepted, compiled and compared (run not excluded)')
